@@ -22,6 +22,9 @@ pub enum FaultKind {
     RpcError,
     /// reply cut in the middle
     Truncated,
+    /// the operation's normal (positive) reply complete up to, and without, the end tag of its
+    /// root element: `<rpc-reply ...><ok/>]]>]]>`
+    EndTagMissing,
     /// a reply with the wrong root element
     WrongRoot,
     /// not XML at all
@@ -119,9 +122,10 @@ pub fn load_shape(code: u16) -> Vec<ShapeItem> {
     v
 }
 
-pub const FAULT_KINDS: [FaultKind; 18] = [
+pub const FAULT_KINDS: [FaultKind; 19] = [
     FaultKind::RpcError,
     FaultKind::Truncated,
+    FaultKind::EndTagMissing,
     FaultKind::WrongRoot,
     FaultKind::NotXml,
     FaultKind::UnknownMessageId,
@@ -319,6 +323,15 @@ impl FakeJunos {
                 let mut r = reply[..cut].to_vec();
                 r.extend_from_slice(MARKER.as_bytes());
                 out.push(r);
+            }
+            Some(FaultKind::EndTagMissing) => {
+                record.positive_reply = false;
+                let text = String::from_utf8_lossy(&reply).to_string();
+                let body = text.strip_suffix(MARKER).unwrap_or(&text);
+                match body.rfind("</") {
+                    Some(i) => out.push(format!("{}{MARKER}", &body[..i]).into_bytes()),
+                    None => out.push(rpc_error(&id, "injected fault")),
+                }
             }
             Some(FaultKind::WrongRoot) => {
                 record.positive_reply = false;
